@@ -238,11 +238,19 @@ def r02_5(ctx):
         def put(interp, base, args, kwargs, node, got=got):
             got.append(args[0] if args else None)
             return None
-        q = pm.AMock('ParserQueue', {'put': put})
+        q = pm.AMock('ParserQueue', {'put': put, 'iterpoll': lambda i_, b_, a_, k_, n_: AList([], 'list')})
+        # the port is opened by its own _open(), whatever private attributes that sets up (a lock, a queue, a callback slot, one
+        # object holding the three): the RtMidi library, the API tables and the queue class are doubles
+        RT = 'mido/backends/rtmidi.py'
+        ai.summaries['rtmidi.MidiIn'] = lambda i_, a_, k_, n_: pm.AMock('MidiIn', {'get_current_api': lambda i2, b2, a2, k2, n2: 0})
+        ai.summaries[f'{RT}::_get_api_id'] = lambda i_, a_, k_, n_: 0
+        ai.summaries[f'{RT}::_open_port'] = lambda i_, a_, k_, n_: 'port'
+        ai.global_overrides[('mido.backends.rtmidi', '_api_to_name')] = {0: 'UNSPECIFIED'}
+        ai.summaries['mido/backends/_parser_queue.py::ParserQueue'] = lambda i_, a_, k_, n_, q=q: q
 
         def thunk(ai=ai, q=q, data=data, got=got):
+            port = pm.new_port(ai, ctx, 'Input', ['port'], {}, module='mido.backends.rtmidi')
             del got[:]
-            port = AObj(cls, {'_callback': None, '_queue': q}, name='Input')
             return ai.call_function(fn, [port, AList([AList(list(data), 'list'), 0.0], 'tuple'), None], {}, None)
         outs = ai.explore(thunk)
         n += 1
